@@ -8,6 +8,7 @@ import (
 	"strconv"
 	"strings"
 	"sync"
+	"unsafe"
 
 	"github.com/fluhus/biostuff/align"
 
@@ -227,6 +228,25 @@ type alnResult struct {
 	ai, bi int
 	score  float64
 	panicS string
+}
+
+// runAlignRaw is runAlign but keeps the returned step slice uncopied (viewed as bytes), so that a
+// caller can detect a later call overwriting it.
+func runAlignRaw(c alnCase, m align.SubstitutionMatrix) (res alnResult, inputsChanged bool) {
+	a, b := c.A.B(), c.B.B()
+	a0, b0 := bytes.Clone(a), bytes.Clone(b)
+	res.panicS = catch(func() {
+		var st []align.Step
+		if c.Fn == "Global" {
+			st, res.score = align.Global(a, b, m)
+		} else {
+			st, res.ai, res.bi, res.score = align.Local(a, b, m)
+		}
+		if len(st) > 0 {
+			res.steps = unsafe.Slice((*byte)(unsafe.Pointer(&st[0])), len(st))
+		}
+	})
+	return res, !bytes.Equal(a, a0) || !bytes.Equal(b, b0)
 }
 
 func runAlign(c alnCase, m align.SubstitutionMatrix) (res alnResult, inputsChanged bool) {
